@@ -1,6 +1,7 @@
 package props
 
 import (
+	"go/token"
 	"go/types"
 	"sort"
 	"strings"
@@ -21,6 +22,12 @@ func init() {
 		Assumptions: []string{"Alloc.index >= 0 marks exactly the cells chosen for lifting in this round"},
 		Run:         runC01,
 		Mutants: []Mutant{
+			{Name: "zero-skip-flag-from-isDef", File: "go/ir/builder.go", Rule: "R1.5", KeyPart: "assignStmt::",
+				Old: "\t\t\tb.assign(fn, lvals[i], rhss[i], isZero[i], &sb, source)\n", New: "\t\t\tb.assign(fn, lvals[i], rhss[i], isZero[i] || isDef, &sb, source)\n"},
+			{Name: "zero-skip-flag-set-for-every-defined-name", File: "go/ir/builder.go", Rule: "R1.5", KeyPart: "assignStmt::",
+				Old: "\t\t\t\t\temitLocalVar(fn, obj, lhs)\n\t\t\t\t\tisZero[i] = true\n\t\t\t\t}\n", New: "\t\t\t\t\temitLocalVar(fn, obj, lhs)\n\t\t\t\t}\n\t\t\t\tisZero[i] = true\n"},
+			{Name: "zero-skip-flag-true-in-op-assign", File: "go/ir/builder.go", Rule: "R1.5", KeyPart: "zero-skip-flag",
+				Old: "\t\t\tb.assign(fn, lvals[i], rhss[i], isZero[i], &sb, source)\n", New: "\t\t\tb.assign(fn, lvals[i], rhss[i], true, &sb, source)\n"},
 			{Name: "closure-stops-at-marked-blocks", File: "go/ir/lift.go", Rule: "R1.4", KeyPart: "cut-only-at-visited-blocks",
 				Old: "\t\tif seen[b.Index] {\n\t\t\treturn\n\t\t}\n\t\tseen[b.Index] = true\n\t\tdesc := &blocks[b.Index]\n", New: "\t\tdesc := &blocks[b.Index]\n\t\tif desc.isUnliftable {\n\t\t\treturn\n\t\t}\n\t\tseen[b.Index] = true\n"},
 			{Name: "closure-skips-last-successor", File: "go/ir/lift.go", Rule: "R1.4", KeyPart: "every-successor-visited",
@@ -522,5 +529,108 @@ func runC01(c *Ctx) {
 			pathStr = PathString(dfs, pth)
 		}
 		c.Check(FuncKey(lf)+"::unliftable-closure::every-successor-visited", dfs.Pos(), okRec, "the traversal recurses into every successor of a visited block; %s", pathStr)
+	})
+	// R1.5: the "location is already zero" flag of assign/compLit. When it is
+	// set, an empty or sparse composite literal is lowered without the clearing
+	// store. That is only right for storage allocated for this very assignment;
+	// for an existing variable (x, y := T{}, f() re-declares x if only y is
+	// new) the old contents would survive. The flag must therefore be false, be
+	// forwarded from the same parameter, or be set together with the fresh
+	// allocation — never taken from a property of the statement as a whole.
+	c.Rule("R1.5", func() {
+		c.Floor("R1.5", 8)
+		reviewedTrue := map[string]string{
+			"(*honnef.co/go/tools/go/ir.builder).addr::b.compLit(fn, v, e, true, &sb)":                                "v is the Alloc just created by emitNew/emitLocal for the literal",
+			"(*honnef.co/go/tools/go/ir.builder).localValueSpec::b.assign(fn, lval, spec.Values[i], true, nil, spec)": "a var declaration always allocates the variable (emitLocalVar just above; the blank identifier has no storage)",
+			"(*honnef.co/go/tools/go/ir.builder).compLit::b.assign(fn, iaddr, e, true, nil, e)":                       "an element of the CompositeValue created for this literal",
+			"(*honnef.co/go/tools/go/ir.builder).compLit::b.assign(fn, &address{…}, e, true, nil, e)":                 "an element of the backing array allocated for the slice literal",
+			"(*honnef.co/go/tools/go/ir.builder).compLit::b.assign(fn, &address{…}, e, true, sb, e)":                  "an element of the array after the whole array was cleared (or was zero: the memclear above is skipped only under isZero)",
+			"(*honnef.co/go/tools/go/ir.builder).compLit::b.assign(fn, &loc, e.Value, true, nil, e)":                  "a new element of the map created for this literal",
+			"(*honnef.co/go/tools/go/ir.builder).buildPackageInit::b.assign(init, lval, varinit.Rhs, true, nil, nil)": "package-level variables are zero when the initializer runs",
+		}
+		flagIdx := func(callee *ssa.Function) int {
+			if callee == nil || FuncPkgPath(callee) != irPkg {
+				return -1
+			}
+			if callee.Name() != "assign" && callee.Name() != "compLit" {
+				return -1
+			}
+			for i, prm := range callee.Params {
+				if prm.Name() == "isZero" {
+					return i
+				}
+			}
+			return -1
+		}
+		n := 0
+		for _, fn := range c.ModuleFuncs() {
+			if FuncPkgPath(fn) != irPkg || len(fn.Blocks) == 0 {
+				continue
+			}
+			for _, ci := range Calls(fn, false) {
+				callee := ci.Common().StaticCallee()
+				fi := flagIdx(callee)
+				if fi < 0 || fi >= len(ci.Common().Args) {
+					continue
+				}
+				n++
+				flag := ci.Common().Args[fi]
+				key := FuncKey(fn) + "::" + c.CallText(ci.Pos())
+				switch {
+				case isBoolConst(flag, false):
+					c.Check(key+"::zero-skip-flag", ci.Pos(), true, "the flag is false: the location is always cleared")
+				case isBoolConst(flag, true):
+					why, ok := reviewedTrue[key]
+					c.CheckTrivial(key+"::zero-skip-flag", ci.Pos(), ok, "a call that claims its target is already zero must be reviewed: the target has to be storage allocated for this very assignment (%s)", why)
+				default:
+					okFlag, why := false, "the flag is neither a constant, nor the forwarded isZero parameter, nor an entry of a per-target list that is set next to the allocation of the target"
+					if prm, isPrm := flag.(*ssa.Parameter); isPrm && flagIdx(fn) >= 0 && fn.Params[flagIdx(fn)] == prm {
+						okFlag, why = true, "forwarded"
+					} else if ld, isLoad := flag.(*ssa.UnOp); isLoad && ld.Op == token.MUL {
+						if ia, isIdx := ld.X.(*ssa.IndexAddr); isIdx {
+							// every store of a non-false value into that list happens right after the target was allocated
+							okFlag, why = true, "per-target list"
+							stores := 0
+							Instrs(fn, false, func(in ssa.Instruction) {
+								st, isSt := in.(*ssa.Store)
+								if !isSt {
+									return
+								}
+								sa, isIA := st.Addr.(*ssa.IndexAddr)
+								if !isIA || AddrKey(sa.X) != AddrKey(ia.X) && sa.X != ia.X {
+									return
+								}
+								if isBoolConst(st.Val, false) {
+									return
+								}
+								stores++
+								fresh := false
+								for _, x := range st.Block().Instrs {
+									if x == ssa.Instruction(st) {
+										break
+									}
+									if call, isCall := x.(ssa.CallInstruction); isCall {
+										switch LastField(CalleeName(call.Common())) {
+										case "emitLocalVar", "emitLocal", "emitNew":
+											fresh = true
+										}
+									}
+								}
+								if !isBoolConst(st.Val, true) || !fresh {
+									okFlag, why = false, "an entry of the list is set without an allocation of the target (emitLocalVar/emitLocal/emitNew) just before it"
+								}
+							})
+							if stores == 0 {
+								okFlag, why = true, "the list is never set: all false"
+							}
+						}
+					}
+					c.Check(key+"::zero-skip-flag", ci.Pos(), okFlag, "isZero lets assign/compLit skip the clearing store of an empty or sparse composite literal; it may be true only for storage allocated for this assignment — a short variable declaration can re-declare an existing variable, so a statement-level fact is not enough (%s)", why)
+				}
+			}
+		}
+		if n < 8 {
+			c.Undecided("found only %d calls of assign/compLit with a zero-skip flag", n)
+		}
 	})
 }
